@@ -26,4 +26,6 @@ int  sched_self(void);
 int  sched_locks_held(void);           /* number of harness locks currently owned by anybody */
 long sched_points(void);               /* scheduling points met in this execution */
 long sched_switches(void);
+/* 1 if thread id is parked in the backend wait with a deadline at least min_deadline_us away (or infinite) */
+int  sched_thread_idle(int id, int64_t min_deadline_us);
 #endif
